@@ -379,6 +379,72 @@ func (e *env) runNbClient() {
 		}(k)
 	}
 
+	// ---- C: close / reset / reuse: a ClientConn is closed while the response to its request may
+	// already be on its way to the callback, reset and used for the next request at once
+	// (what Client.Do does with pooled objects): the next request's callback must get its own
+	// response or an error, never the one of the request that has been failed
+	{
+		wg.Add(1)
+		grng := rand.New(rand.NewSource(rng.Int63()))
+		go func() {
+			defer wg.Done()
+			conn := "nbreuse"
+			cc := &nbhttp.ClientConn{Engine: ce, Timeout: timeout, TLSClientConfig: tlsc}
+			n.mu.Lock()
+			n.ccs = append(n.ccs, cc)
+			n.mu.Unlock()
+			seq := 0
+			iters := 40
+			if c.Cell.TLS {
+				iters = 12 // every iteration is a handshake
+			}
+			for it := 0; it < iters && !stopped(); it++ {
+				var last chan struct{}
+				for half := 0; half < 2; half++ {
+					p := e.nbPlan(grng, conn, seq, true)
+					seq++
+					p.Kill = false
+					rec := n.add(p, "ClientConn.Do")
+					done := make(chan struct{})
+					cb := n.callback(rec)
+					e.log.Add("clientconn.do", conn, int64(p.ID), p.String())
+					cc.Do(n.request(p, base), func(res *http.Response, conn net.Conn, err error) {
+						cb(res, conn, err)
+						select {
+						case <-done:
+						default:
+							close(done)
+						}
+					})
+					if half == 0 {
+						// A: closed while it is in flight
+						if d := grng.Intn(400); d > 0 {
+							time.Sleep(time.Duration(d) * time.Microsecond)
+						}
+						cc.Close()
+						cc.Reset()
+						select {
+						case <-done: // Close fails every pending request synchronously
+						case <-stop:
+							return
+						}
+					} else {
+						last = done
+					}
+				}
+				select {
+				case <-last:
+				case <-stop:
+					return
+				}
+				e.r.Count("client_close_reset_reuse_iterations", 1)
+				cc.Close()
+				cc.Reset()
+			}
+			cc.Close()
+		}()
+	}
+
 	issued := make(chan struct{})
 	go func() { wg.Wait(); close(issued) }()
 	// ---- every callback must arrive. A missing callback is only "never" in a
